@@ -318,7 +318,12 @@ class AsynchronousDeferredRunTest(_DeferredRunTest):
             d = defer.maybeDeferred(f, *args, **kwargs)
             try:
                 yield d
-            except Exception:
+            except GeneratorExit:
+                raise
+            except BaseException:
+                # KeyboardInterrupt and SystemExit included: the remaining
+                # cleanups still have to run, and RunTest re-raises them once
+                # the outcome has been reported.
                 exc_info = sys.exc_info()
                 self.case._report_traceback(exc_info)
                 last_exception = exc_info[1]
